@@ -60,6 +60,13 @@ fn ops<T: Sc>(t: &mut Toks, cx: &mut Ctx) -> String {
     let tr = polyres!({ let mut z = p.clone(); z.trim(); z });
     let ix = valres!(p[n]);
     let sx = polyres!({ let mut z = p.clone(); z[n] = s; z });
+    // constructors by degree and the mutable coefficient accessor
+    let qd = polyres!(Polynomial::quadratic(x, s, x + s));
+    let cb = polyres!(Polynomial::cubic(x, s, x + s, x * s));
+    let cm = polyres!({ let mut z = p.clone(); z.coeffs().push(s); z });
+    if let Ok(z) = &qd { cx.check(same_vec(&coeffs(z), &[x + s, s, x]), "quadratic(a, b, c) is not c + b x + a x^2"); }
+    if let Ok(z) = &cb { cx.check(same_vec(&coeffs(z), &[x * s, x + s, s, x]), "cubic(a, b, c, d) is not d + c x + b x^2 + a x^3"); }
+    if let Ok(z) = &cm { let mut e = pc.clone(); e.push(s); cx.check(same_vec(&coeffs(z), &e), "coeffs() is not the coefficient vector"); }
     match &sx { Ok(z) => { let mut e = pc.clone(); if n < e.len() { e[n] = s; } cx.check(n < pc.len() && same_vec(&coeffs(z), &e), "indexed write"); } Err(_) => cx.check(n >= pc.len(), "indexed write panicked in range") }
     // ---- oracle ----
     if T::is_exact() || T::TAG == "f" || T::TAG == "c" {
